@@ -20,7 +20,7 @@ func nameMatches(full, pat string) bool {
 	}
 	if strings.HasSuffix(full, pat) {
 		c := full[len(full)-len(pat)-1]
-		return c == '.' || c == '/' || c == '(' || c == ')' || c == '*'
+		return c == '.' || c == '/' || c == '(' || c == ')' || c == '*' || c == ' '
 	}
 	return false
 }
@@ -64,7 +64,40 @@ func (ex *Executor) staticCalleeName(cc *ssa.CallCommon) string {
 	if b, ok := cc.Value.(*ssa.Builtin); ok {
 		return "builtin " + b.Name()
 	}
-	return "dynamic " + cc.Value.Name()
+	return "dynamic " + dynName(cc.Value)
+}
+
+// dynName: a stable name for a function value that is not a static callee: the captured variable,
+// parameter or struct field it was read from (never an SSA temporary).
+func dynName(v ssa.Value) string {
+	switch x := v.(type) {
+	case *ssa.UnOp:
+		switch a := x.X.(type) {
+		case *ssa.FreeVar:
+			return a.Name()
+		case *ssa.Alloc:
+			if a.Comment != "" {
+				return a.Comment
+			}
+		case *ssa.FieldAddr:
+			if pt, ok := a.X.Type().Underlying().(*types.Pointer); ok {
+				if st := structOf(pt.Elem()); st != nil {
+					return "." + st.Field(a.Field).Name()
+				}
+			}
+		case *ssa.Global:
+			return a.Name()
+		}
+	case *ssa.Parameter:
+		return x.Name()
+	case *ssa.FreeVar:
+		return x.Name()
+	case *ssa.Field:
+		if st := structOf(x.X.Type()); st != nil {
+			return "." + st.Field(x.Field).Name()
+		}
+	}
+	return v.Name()
 }
 
 func ifaceMethodKey(cc *ssa.CallCommon) string {
@@ -203,7 +236,9 @@ func (ex *Executor) dispatchCall(st *State, fr *Frame, cc *ssa.CallCommon, fv Va
 			}
 			return finish(res)
 		}
-		ex.Assumed["call of unknown function value in "+fr.fn.String()+": results havocked, tracked heap unchanged"] = true
+		if !ex.observed(name) {
+			ex.Assumed["call of unknown function value in "+fr.fn.String()+": results havocked, tracked heap unchanged"] = true
+		}
 		return finish(ex.havocResults(st, cc.Signature(), "dyn"))
 	}
 	var binds []Val
@@ -719,6 +754,12 @@ func (ex *Executor) writtenIn(fn *ssa.Function) map[string]bool {
 }
 
 func (ex *Executor) writtenInBlocks(fn *ssa.Function, blocks map[*ssa.BasicBlock]bool) map[string]bool {
+	return ex.writtenInBlocksP(fn, blocks, nil)
+}
+
+// writtenInBlocksP: with precise != nil, stores straight into a captured variable or an address-taken local
+// of fn itself (scalar cells) are collected there instead of havocking the whole cell map.
+func (ex *Executor) writtenInBlocksP(fn *ssa.Function, blocks map[*ssa.BasicBlock]bool, precise *[]ssa.Value) map[string]bool {
 	w := map[string]bool{}
 	for _, b := range fn.Blocks {
 		if !blocks[b] {
@@ -748,7 +789,16 @@ func (ex *Executor) writtenInBlocks(fn *ssa.Function, blocks map[*ssa.BasicBlock
 					if isStruct(el) {
 						w["*"] = true
 					} else {
-						w[cellName(sortOf(el))] = true
+						isCell := false
+						switch x.Addr.(type) {
+						case *ssa.FreeVar, *ssa.Alloc:
+							isCell = true
+						}
+						if _, isArr := el.Underlying().(*types.Array); precise != nil && isCell && !isArr && !isBigIntPtr(x.Addr.Type()) {
+							*precise = append(*precise, x.Addr)
+						} else {
+							w[cellName(sortOf(el))] = true
+						}
 					}
 				}
 			case *ssa.MapUpdate:
